@@ -73,6 +73,11 @@ class C09(PropBase):
     def explore(self, rep, run, rng, tier, driver_ok):
         fl = self.fields(rng, 20000 if tier == "quick" else 400000)
         frames, exp = [], []
+        # every third pair of consecutive squitters carries the same velocity bits under the two subtypes (and other
+        # vertical-rate bits): nothing of one frame's decoding may leak into the next
+        for i in range(1, len(fl), 2):
+            if (i // 2) % 3 == 0:
+                fl[i] = fl[i - 1]
         for i, (dew, few, dns, fns) in enumerate(fl):
             st = 1 + (i % 2)
             svr, fvr = (i // 2) % 2, (i // 4) % 512
